@@ -1,2 +1,2 @@
--- stub: replaced by the real driver for model ClientSub (imports Pyrtma.Drv.ClientSub)
-def main : IO Unit := pure ()
+import Pyrtma.Drv.ClientSub
+def main : IO Unit := Pyrtma.Drv.ClientSub.main
